@@ -372,21 +372,22 @@ def _programs(plan: Dict[str, Any], res: Dict[str, Any], log: Any, prf: Any, pro
             return
         gm = fx.GraphModule(holder, graph)
         before = [(n.op, n.target) for n in gm.graph.nodes]
-        map_ = _replacement_targets()
+        import torch.nn.functional as F_
+
+        matmul_targets = {F_.linear, U.linear, F_.scaled_dot_product_attention, U.scaled_dot_product_attention}
         try:
             gm2 = backend(gm, [])
         except Exception as e:
             raise Violation("runs_after_rewrite", "backend_raised", f"{type(e).__name__}: {str(e)[:300]}")
         after = [(n.op, n.target) for n in gm2.graph.nodes]
+        # structure, stated without reference to the library's private wrapper functions: every
+        # linear / attention node got another target, no other node changed, nothing was added
         if len(before) != len(after):
             raise Violation("rewrite_structure", "node_count_changed", f"{len(before)} -> {len(after)}")
-        for (o1, t1), (o2, t2), node in zip(before, after, gm2.graph.nodes):
-            if t1 in map_:
-                if t2 is not map_[t1]:
-                    raise Violation("rewrite_structure", "matmul_op_not_replaced", f"{t1} -> {t2}")
-                tup = [a for a in node.args if isinstance(a, tuple)]
-                if len(tup) != 2:
-                    raise Violation("rewrite_structure", "format_arguments", f"{node.args}")
+        for (o1, t1), (o2, t2) in zip(before, after):
+            if o1 == "call_function" and t1 in matmul_targets:
+                if t2 is t1:
+                    raise Violation("rewrite_structure", "matmul_op_not_replaced", f"{t1}")
             elif (o1, t1) != (o2, t2):
                 raise Violation("rewrite_structure", "other_node_changed", f"{t1} -> {t2}")
         first: Dict[Any, str] = {}
@@ -474,16 +475,6 @@ def _culprit_for_exception(e: BaseException, sig: str) -> str:
     if "modified inplace" in msg and "iadd" in sig:
         return "call_raised:inplace_add_on_quantised_output"
     return "call_raised:" + type(e).__name__
-
-
-def _replacement_targets() -> Dict[Any, Any]:
-    import torch.nn.functional as F
-    import unit_scaling.functional as U
-    from unit_scaling.transforms import _simulate_format as sf
-
-    return {F.linear: sf._quantised_linear, U.linear: sf._quantised_u_linear,
-            F.scaled_dot_product_attention: sf._quantised_scaled_dot_product_attention,
-            U.scaled_dot_product_attention: sf._quantised_u_scaled_dot_product_attention}
 
 
 def _known(plan: Dict[str, Any], res: Dict[str, Any], log: Any, prf: Any, probe: Any, states: List[str]) -> None:
